@@ -28,6 +28,10 @@ type Env struct {
 	res   []Val
 	bound map[string]bool
 	depth int
+	// sample(k): ghost value of the k-th random draw made by the function the
+	// expression talks about (its own recorded draws, or fresh constants when
+	// the expression is a callee's postcondition)
+	sample func(k int) string
 }
 
 type specErr struct{ msg string }
@@ -46,6 +50,12 @@ func (e *Env) with(st *State) *Env {
 // variables, named results).
 func (g *Gen) funcEnv(st, old *State, res []Val) *Env {
 	env := &Env{g: g, vars: map[string]envVar{}, st: st, old: old, pkg: g.fn.Pkg.Pkg, bound: map[string]bool{}, res: res}
+	env.sample = func(k int) string {
+		if k >= len(g.samples) {
+			panic(specErr{fmt.Sprintf("sample(%d): the function makes only %d recorded draws before this point", k, len(g.samples))})
+		}
+		return g.samples[k]
+	}
 	for i, p := range g.fn.Params {
 		env.vars[p.Name()] = envVar{v: g.vals[p]}
 		if i == 0 && g.fn.Signature.Recv() != nil {
@@ -658,6 +668,7 @@ func idxPatterns(s, v string) []string {
 // function, some ai is exactly v, no argument contains an ite, and no other
 // quantified variable occurs.
 func appWithBareVar(s, v string, funs map[string]specFun) string {
+	fallback := ""
 	for i := 0; i < len(s); i++ {
 		if s[i] != '(' {
 			continue
@@ -703,9 +714,16 @@ func appWithBareVar(s, v string, funs map[string]specFun) string {
 		if strings.Count(term, "|qv.") != strings.Count(term, v) {
 			continue // mentions another bound variable
 		}
+		// prefer a candidate without arithmetic inside (robust E-matching)
+		if strings.Contains(term, "(+ ") || strings.Contains(term, "(- ") || strings.Contains(term, "(* ") || strings.Contains(term, "(mod ") {
+			if fallback == "" {
+				fallback = term
+			}
+			continue
+		}
 		return term
 	}
-	return ""
+	return fallback
 }
 
 func isNumeral(t string) bool {
@@ -836,6 +854,13 @@ func (e *Env) call(x *ECall) Val {
 	case "sentv":
 		v, k := arg(0), arg(1)
 		return Val{T: sx("select", sx("select", g.heap(e.st, "ChanV", "(Array Int (Array Int Int))"), v.T), k.T), S: "Int"}
+	case "sample":
+		lit, ok := x.Args[0].(*EInt)
+		if !ok || e.sample == nil {
+			e.fail("sample(k) needs a literal index and is only available in postconditions")
+		}
+		k, _ := strconv.Atoi(lit.V)
+		return Val{T: e.sample(k), S: "Int"}
 	case "held":
 		v := arg(0)
 		return Val{T: sx("select", g.heap(e.st, "Held", "(Array Int Bool)"), v.T), S: "Bool"}
@@ -1507,6 +1532,21 @@ func (g *Gen) call(c *ssa.CallCommon, pos token.Pos, isGo bool) Val {
 				post.vars[n] = envVar{v: rs[i]}
 			}
 		}
+	}
+	// ghost draws of the callee appear to the caller as unknown constants
+	calleeSamples := map[int]string{}
+	post.sample = func(k int) string {
+		if s, ok := calleeSamples[k]; ok {
+			return s
+		}
+		s := g.declConst(g.fresh(fmt.Sprintf("sample.%s.%d", lastDot(sk), k)), "Int")
+		calleeSamples[k] = s
+		return s
+	}
+	if ct.Sampler && len(rs) > 0 && rs[0].S == "Int" {
+		// the value drawn by this call is the caller's next ghost sample
+		bv := g.heap(g.st, "BV", "(Array Int Int)")
+		g.samples = append(g.samples, g.define("sample", "Int", sx("select", bv, rs[0].T)))
 	}
 	for _, en := range ct.Ensures {
 		if en.Assumed {
